@@ -143,6 +143,7 @@ Inductive C17_in :=
 | IArgmin (losses : list Q)
 | ICluster (K : nat) (lr mom : Q) (P T : list vec) (cl : list hclient)
 | IClip (bound slr : Q) (p : vec) (cl : list mclient)
+| IClipD (bound : Q) (d : vec) (n : Q)            (* tree_clip_by_global_norm called directly *)
 | IIgnore (lr : Q) (leaves : list (bool * Q * Q)).
 
 Inductive C17_out :=
@@ -185,6 +186,7 @@ Definition C17_check (i : C17_in) (o : C17_out) : bool :=
       list_beq close_vec (map snd res) P' && list_beq close_vec (map fst res) T' &&
       implb_list (map (fun d => match d with None => true | Some _ => false end) ds) unt
   | IClip bound slr p cl, OVec p' => close_vec (mimelite_params bound slr p cl) p'
+  | IClipD bound d n, OVec r => close_vec (clip_delta bound d n) r
   | IIgnore lr leaves, OVec p' =>
       let il := indexed_leaves leaves in
       let named := fun k => match nth_error leaves k with Some (b, _, _) => b | None => false end in
